@@ -43,6 +43,7 @@ def cases(draw, prof):
         for key in ("alloc", "capacity", "coverage"):
             for q, e in spec["instr"][key].items():
                 e["t"] = [Y]
+                e["v"] = e["v"][:1]
         if spec["instr"].get("stop") is not None:
             spec["instr"]["stop"] = Y + draw(st.integers(0, nsteps)) * dt + draw(st.sampled_from([0.0, 0.3 * dt]))
     elif kind == "series-change":
